@@ -56,6 +56,10 @@ def item_xml(it, i, rnd, late_anchor):
         return f'<g transform="translate(3 -2)">{rect}</g>', ""
     if k == "gscale":
         return f'<g transform="scale(2)">{rect}</g>', ""
+    if k == "gflip":
+        return f'<g transform="scale(-1)">{rect}</g>', ""
+    if k == "gflipx":
+        return f'<g transform="scale(-1 1)">{rect}</g>', ""
     if k == "polyline":
         return f'<polyline points="{q(x1)},{q(y2)} {q(x1 + w / 2)},{q(y1)} {q(x2)},{q(y2)}" fill="none"/>', ""
     if k == "path":
